@@ -12,13 +12,13 @@ import (
 // echo of a change the replica made itself - and that checkpoints are
 // monotone and never exceed the log head.
 type deliveryMonitor struct {
-	prop string
-	rc   *RunCtx
-	viol *Violation
-	own  map[string]map[int64]bool // replica -> lamports of its own changes
+	prop   string
+	rc     *RunCtx
+	viol   *Violation
+	own    map[string]map[int64]bool // replica -> lamports of its own changes
 	ownSeq map[string]map[int64]bool // replica -> serverSeqs of the changes it pushed
-	head int64
-	last map[string][2]int64       // replica -> last applied response checkpoint
+	head   int64
+	last   map[string][2]int64 // replica -> last applied response checkpoint
 }
 
 func (m *deliveryMonitor) fail(oracle, class, detail string) {
